@@ -105,7 +105,11 @@ static uint64_t xs_state = 88172645463325252ULL;
 static uint64_t xs(void) { xs_state ^= xs_state << 13; xs_state ^= xs_state >> 7; xs_state ^= xs_state << 17; return xs_state; }
 
 /* frag: "all" | "n:<size>" | "rand:<seed>:<max>" | "cuts:..." */
+static size_t feed_frag_kg(zckDL *dl, char *data, size_t len, const char *frag, int kind, int keep_going);
 static size_t feed_frag(zckDL *dl, char *data, size_t len, const char *frag, int kind) {
+    return feed_frag_kg(dl, data, len, frag, kind, 0);
+}
+static size_t feed_frag_kg(zckDL *dl, char *data, size_t len, const char *frag, int kind, int keep_going) {
     if(frag && !strncmp(frag, "rand:", 5)) {
         unsigned long long seed = 1, mx = 16384;
         sscanf(frag + 5, "%llu:%llu", &seed, &mx);
@@ -120,11 +124,11 @@ static size_t feed_frag(zckDL *dl, char *data, size_t len, const char *frag, int
             if(o + 24 > cap) { cap *= 2; spec = realloc(spec, cap); }
             o += snprintf(spec + o, cap - o, "%zu,", pos);
         }
-        size_t r = feed(dl, data, len, spec, kind, 0);
+        size_t r = feed(dl, data, len, spec, kind, keep_going);
         free(spec);
         return r;
     }
-    return feed(dl, data, len, frag, kind, 0);
+    return feed(dl, data, len, frag, kind, keep_going);
 }
 
 static int feed_quiet = 0;
